@@ -331,6 +331,8 @@ def identity_index(d):
 
 
 def nontrivial(d):
+    if d["loader"] == "notemplate":
+        return any(max(abs(v) for v in p["m"]) >= 0.5 for p in d["particles"])
     K = n_candidates(d)
     idn = identity_index(d)
     return any((p["k"] % K) != idn and max(abs(v) for v in p["m"]) >= 0.5 for p in d["particles"])
